@@ -938,24 +938,50 @@ Qed.
 (* ------------------------------------------------------------------ *)
 (* LocalReferenceable: order is given by the eventual queue alone *)
 
-Definition LInv (s : lstate) : Prop := l_entered s ++ l_evq s = seq 0 (l_next s).
+Lemma evq_isolation : evq_isolates_exceptions = true.
+Proof. reflexivity. Qed.
+
+Lemma datas_app a b : datas (a ++ b) = datas a ++ datas b.
+Proof. induction a as [|t a IH]; cbn [app datas]; [reflexivity|]. destruct t; cbn [app]; rewrite IH; reflexivity. Qed.
+
+Definition LInv (s : lstate) : Prop := l_entered s ++ datas (l_evq s) = seq 0 (l_next s).
+
+(* while a batch runs: what was delivered, then the data still in the batch, then the data queued meanwhile *)
+Lemma run_batch_inv batch : forall s,
+  l_entered s ++ datas batch ++ datas (l_evq s) = seq 0 (l_next s) -> LInv (run_batch batch s).
+Proof.
+  destruct evq_is_fifo as [Hp _].
+  induction batch as [|t rest IH]; intros s I; cbn [run_batch].
+  - exact I.
+  - destruct t; cbn [datas app] in I.
+    + apply IH. cbn [l_entered l_evq l_next]. rewrite <- app_assoc. exact I.
+    + apply IH. exact I.
+    + rewrite evq_isolation. apply IH. exact I.
+    + apply IH. cbn [l_entered l_evq l_next]. rewrite Hp. cbn [q_put]. rewrite datas_app. cbn [datas].
+      rewrite !app_assoc. rewrite <- (app_assoc (l_entered s)). rewrite I, seq_S. reflexivity.
+Qed.
 
 Lemma lstep_inv s o : LInv s -> LInv (lstep s o).
 Proof.
-  unfold LInv. intros I. destruct evq_is_fifo as [Hp Hi]. destruct o; cbn [lstep l_entered l_evq l_next].
-  - rewrite Hp. cbn [q_put]. rewrite app_assoc, I, seq_S. reflexivity.
-  - rewrite Hi, app_nil_r. exact I.
+  unfold LInv. intros I. destruct evq_is_fifo as [Hp Hi]. destruct o; cbn [lstep].
+  - cbn [l_entered l_evq l_next]. rewrite Hp. cbn [q_put]. rewrite datas_app. cbn [datas].
+    rewrite app_assoc, I, seq_S. reflexivity.
+  - cbn [l_entered l_evq l_next]. rewrite Hp. cbn [q_put]. rewrite datas_app. destruct raises; cbn [datas]; rewrite app_nil_r; exact I.
+  - cbn [l_entered l_evq l_next]. rewrite Hp. cbn [q_put]. rewrite datas_app. cbn [datas]. rewrite app_nil_r; exact I.
+  - rewrite Hi. apply run_batch_inv. cbn [l_entered l_evq l_next datas]. rewrite app_nil_r. exact I.
 Qed.
 
 Lemma lrun_from_inv ops : forall s, LInv s -> LInv (fold_left lstep ops s).
 Proof. induction ops as [|o ops IH]; intros s I; cbn [fold_left]; [exact I|]. apply IH, lstep_inv, I. Qed.
 
-Theorem local_calls_in_order ops :
-  l_entered (lrun ops) ++ l_evq (lrun ops) = seq 0 (l_next (lrun ops)).
+(* the eventual queue is an order-preserving channel: whatever unrelated callables (also raising ones, also ones that
+   write themselves) share it, delivered ++ still queued = written, in the order written *)
+Theorem eventual_channel_in_order ops :
+  l_entered (lrun ops) ++ datas (l_evq (lrun ops)) = seq 0 (l_next (lrun ops)).
 Proof. apply (lrun_from_inv ops). reflexivity. Qed.
 
-Corollary local_entered_prefix ops : sublist (l_entered (lrun ops)) (seq 0 (l_next (lrun ops))).
-Proof. rewrite <- local_calls_in_order. apply sublist_app_l. Qed.
+Corollary eventual_channel_prefix ops : sublist (l_entered (lrun ops)) (seq 0 (l_next (lrun ops))).
+Proof. rewrite <- eventual_channel_in_order. apply sublist_app_l. Qed.
 
 (* ------------------------------------------------------------------ *)
 (* non-vacuity *)
@@ -988,5 +1014,6 @@ Example waiting_is_reached :
   waiting (run [Issue 0 FGift; Deliver; Turn]) = [{| cid := 0; stalls := 0; cfate := FGift |}].
 Proof. vm_compute. reflexivity. Qed.
 
-Example local_example : l_entered (lrun [LIssue; LIssue; LTurn; LIssue; LTurn]) = [0; 1; 2].
+Example local_example :
+  l_entered (lrun [LSpawnOp; LNoise true; LIssue; LIssue; LTurn; LNoise true; LIssue; LTurn; LTurn]) = [0; 1; 2; 3].
 Proof. vm_compute. reflexivity. Qed.
